@@ -162,6 +162,29 @@ Proof.
   lia.
 Qed.
 
+(* ------------------------------------------------------------------- DAC *)
+Definition wf_dac (iv : Z * Z) : Prop :=
+  0 <= fst iv < 2 * NUM_ARITH_TBLS /\ is_byte (snd iv) /\ (fst iv < NUM_ARITH_TBLS -> snd iv mod 16 <= snd iv / 16).
+Definition dac_bytes (pairs : list (Z * Z)) : list Z := flat_map (fun iv => [byte_of (fst iv); byte_of (snd iv)]) pairs.
+Definition dac_apply (d : Z -> Z) (iv : Z * Z) : Z -> Z := fun k => if k =? fst iv then snd iv else d k.
+
+Lemma get_dac_loop_emit pairs : Forall wf_dac pairs -> forall fuel dac rest, (length pairs <= fuel)%nat ->
+  get_dac_loop fuel (Zlength (dac_bytes pairs)) dac (dac_bytes pairs ++ rest) = Some (fold_left dac_apply pairs dac, rest).
+Proof.
+  induction 1 as [|iv pairs (Hi & Hv & Hlu) HF IH]; intros fuel dac rest Hf.
+  - cbn [dac_bytes flat_map fold_left app]. rewrite Zlength_nil. destruct fuel; reflexivity.
+  - destruct fuel as [|f]; [cbn in Hf; lia|]. unfold dac_bytes in *. cbn [flat_map fold_left app].
+    rewrite !Zlength_cons. pose proof (Zlength_nonneg' (flat_map (fun iv0 => [byte_of (fst iv0); byte_of (snd iv0)]) pairs)) as Ln.
+    cbn [get_dac_loop]. replace (Z.succ (Z.succ (Zlength (flat_map (fun iv0 => [byte_of (fst iv0); byte_of (snd iv0)]) pairs))) <=? 0) with false by (symmetry; apply Z.leb_gt; lia).
+    unfold NUM_ARITH_TBLS in *. rewrite (byte_of_id (fst iv)) by (unfold is_byte; lia). rewrite (byte_of_id (snd iv)) by assumption.
+    replace ((fst iv <? 0) || (2 * 16 <=? fst iv)) with false by (symmetry; apply orb_false_iff; split; [apply Z.ltb_ge | apply Z.leb_gt]; lia).
+    replace ((fst iv <? 16) && (snd iv / 16 <? snd iv mod 16)) with false.
+    2:{ symmetry. destruct (fst iv <? 16) eqn:E; [|reflexivity]. apply Z.ltb_lt in E. specialize (Hlu E). cbn [andb]. apply Z.ltb_ge. assumption. }
+    replace (Z.succ (Z.succ (Zlength (flat_map (fun iv0 => [byte_of (fst iv0); byte_of (snd iv0)]) pairs))) - 2)
+      with (Zlength (flat_map (fun iv0 => [byte_of (fst iv0); byte_of (snd iv0)]) pairs)) by lia.
+    apply IH. cbn [length] in Hf. lia.
+Qed.
+
 (* ---------------------------------------------------- one marker, then all *)
 Definition wf_marker (c : cfg) (m : amarker) : Prop :=
   match m with
@@ -170,10 +193,13 @@ Definition wf_marker (c : cfg) (m : amarker) : Prop :=
   | ADqt ts => Forall wf_q ts /\ Zlength (flat_map qt_bytes ts) + 2 < 65536
   | ADht ts => Forall wf_h ts /\ Zlength (flat_map ht_bytes ts) + 2 < 65536
   | ASof code f => frame_ok f /\ sof_flags code <> None
+  | ADac pairs => Forall wf_dac pairs /\ Zlength (dac_bytes pairs) + 2 < 65536
+  | ADnl data => Zlength data <= WRITE_MARKER_MAX_DATALEN
   end.
 
 Lemma sof_code_props code : sof_flags code <> None ->
-  is_byte code /\ is_app_or_com code = false /\ (code =? M_DRI) = false /\ (code =? M_DQT) = false /\ (code =? M_DHT) = false /\ (code =? M_DAC) = false /\ ends_run code = false.
+  is_byte code /\ is_app_or_com code = false /\ (code =? M_DRI) = false /\ (code =? M_DQT) = false /\ (code =? M_DHT) = false /\ (code =? M_DAC) = false /\ (code =? M_DNL) = false /\
+  (((M_RST0 <=? code) && (code <=? M_RST7)) || (code =? M_TEM)) = false /\ ends_run code = false.
 Proof.
   unfold sof_flags. intros H.
   destruct ((code =? M_SOF0) || (code =? M_SOF1)) eqn:E0.
@@ -192,7 +218,7 @@ Lemma marker_step_emit c st m rest : (forall k, 0 <= c k) -> wf_marker c m ->
   exists code body, emit_amarker m = Some (emit_marker code ++ body) /\ is_byte code /\ ends_run code = false /\
     marker_step c st code (body ++ rest) = match apply_marker c st m with Some st' => Some (st', rest) | None => None end.
 Proof.
-  intros Hc W. destruct m as [code data|ri|ts|ts|code f]; cbn [wf_marker] in W.
+  intros Hc W. destruct m as [code data|ri|ts|ts|code f|pairs|data]; cbn [wf_marker] in W.
   - destruct W as (A & L). exists code. eexists. cbn [emit_amarker]. rewrite write_marker_ok by assumption.
     split; [reflexivity|]. split; [apply app_or_com_byte; assumption|].
     split.
@@ -214,11 +240,31 @@ Proof.
     unfold marker_step. change (is_app_or_com M_DHT) with false. change (M_DHT =? M_DRI) with false.
     change (M_DHT =? M_DQT) with false. cbn iota. rewrite Z.eqb_refl.
     rewrite <- app_assoc, (dht_roundtrip ts _ _ rest HF L). cbn [apply_marker]. reflexivity.
-  - destruct W as (Fo & Sf). destruct (sof_code_props code Sf) as (B & A & D1 & D2 & D3 & D4 & En).
+  - destruct W as (Fo & Sf). destruct (sof_code_props code Sf) as (B & A & D1 & D2 & D3 & D4 & D5 & D6 & En).
     destruct (sof_roundtrip code f Fo) as (body & E & R). exists code, body. cbn [emit_amarker].
     split; [exact E|]. split; [assumption|]. split; [assumption|].
-    unfold marker_step. rewrite A, D1, D2, D3, D4. destruct (sof_flags code); [|congruence].
+    unfold marker_step. rewrite A, D1, D2, D3, D4, D5, D6. destruct (sof_flags code); [|congruence].
     cbn [apply_marker]. destruct (r_frame st); [reflexivity|]. rewrite R. reflexivity.
+  - destruct W as (HF & L). exists M_DAC. eexists. cbn [emit_amarker]. fold (dac_bytes pairs). split; [reflexivity|].
+    split; [unfold is_byte, M_DAC; lia|]. split; [reflexivity|].
+    unfold marker_step. change (is_app_or_com M_DAC) with false. change (M_DAC =? M_DRI) with false.
+    change (M_DAC =? M_DQT) with false. change (M_DAC =? M_DHT) with false. cbn iota. rewrite Z.eqb_refl.
+    unfold get_dac. pose proof (Zlength_nonneg' (dac_bytes pairs)).
+    rewrite <- app_assoc, get_emit_2bytes by lia. replace (Zlength (dac_bytes pairs) + 2 - 2) with (Zlength (dac_bytes pairs)) by lia.
+    rewrite get_dac_loop_emit; [reflexivity | assumption |].
+    assert (B : 2 * Z.of_nat (length pairs) = Zlength (dac_bytes pairs)).
+    { clear. unfold dac_bytes. induction pairs as [|iv r IH]; [reflexivity|]. cbn [flat_map length app]. rewrite !Zlength_cons. lia. }
+    lia.
+  - exists M_DNL. eexists. cbn [emit_amarker]. rewrite write_marker_ok by assumption. split; [reflexivity|].
+    split; [unfold is_byte, M_DNL; lia|]. split; [reflexivity|].
+    unfold marker_step. change (is_app_or_com M_DNL) with false. change (M_DNL =? M_DRI) with false.
+    change (M_DNL =? M_DQT) with false. change (M_DNL =? M_DHT) with false. change (M_DNL =? M_DAC) with false. cbn iota. rewrite Z.eqb_refl.
+    pose proof (Zlength_nonneg' data). unfold WRITE_MARKER_MAX_DATALEN in W.
+    rewrite <- app_assoc, get_emit_2bytes by lia. replace (Zlength data + 2 - 2) with (Zlength data) by lia.
+    replace (Zlength (map byte_of data ++ rest) <? Zlength data) with false.
+    2:{ symmetry. apply Z.ltb_ge. rewrite Zlength_app', Zlength_map'. pose proof (Zlength_nonneg' rest). lia. }
+    replace (Z.to_nat (Zlength data)) with (length (map byte_of data)) by (rewrite map_length, Zlength_correct; lia).
+    rewrite skipn_app_exact. reflexivity.
 Qed.
 
 Definition run_ends (rest : list Z) : Prop :=
